@@ -53,11 +53,14 @@ impl Adapter for BulkheadAd {
         let pre = if wait >= 0 { rng.below(3) } else { 0 };
         // lazy (variant "lazy", C01 only): the executor may let time pass although somebody is runnable
         let lazy = if self.variant == "lazy" { 1 } else { 0 };
-        json!({"hm": rng.below(4), "max": *rng.pick(maxes), "wait": wait, "ctor": ctor, "ord": rng.below(6), "pre": pre, "sib": rng.below(2), "lazy": lazy})
+        // rt (some late-polling runs): virtual time is coupled to the wall clock, which the crate reads too
+        let rt = if lazy == 1 && rng.pct(12) { 1 } else { 0 };
+        json!({"rt": rt, "hm": rng.below(4), "max": *rng.pick(maxes), "wait": wait, "ctor": ctor, "ord": rng.below(6), "pre": pre, "sib": rng.below(2), "lazy": lazy})
     }
     fn build(&mut self, cfg: &Value, sim: &mut Sim) {
         let max = cfg["max"].as_u64().unwrap() as usize;
         let wait = cfg["wait"].as_i64().unwrap();
+        sim.real_sleep = cfg["rt"].as_u64().unwrap_or(0) == 1;
         let cnt = Arc::new(Counters::default());
         self.cnt = cnt.clone();
         let (c1, c2, c3, c4) = (cnt.clone(), cnt.clone(), cnt.clone(), cnt.clone());
